@@ -16,7 +16,7 @@ META = {
                    "the node array / coordinates of an action it received (self or an operand) — only freshly built actions are modified, apart from the "
                    "two primitive in-place helpers and add_attributes; the string hashed into a node name contains the payload's positional arguments, "
                    "its keyword arguments (names and values) and the names of all inputs including non-default output names; source names are made "
-                   "unique; unions build new sink lists. Known finding: the callable enters the name only through __name__.",
+                   "unique; unions build new sink lists. Later rules: every union passes through de-duplication (0, 1, 2 actions), backend callables made up on demand carry their name, wrappers keep the wrapped name. Known finding: the callable enters the name only through __name__.",
     "assumptions": ["xarray objects returned by xarray calls are fresh"],
 }
 INPLACE_API = {"__init__", "_add_dimension", "_squeeze_dimension", "add_attributes"}
